@@ -103,6 +103,17 @@ func (h *chist) tag(t string) {
 	h.tagMu.Unlock()
 }
 
+// observerMisses counts how often an observer never saw a marker write. It should be 0; when the
+// implementation loses events it is not, and then there is no point in waiting 10 s every time.
+var observerMisses atomic.Int64
+
+func observerWait() time.Duration {
+	if observerMisses.Load() >= 3 {
+		return 1500 * time.Millisecond
+	}
+	return 10 * time.Second
+}
+
 var concType = &pbresource.Type{Group: "demo", GroupVersion: "v1", Kind: "artist"}
 
 func (h *chist) now() int64 { return h.clock.Add(1) }
@@ -306,10 +317,11 @@ func (h *chist) restore(tid int, r *hx.RNG, snap []*pbresource.Resource) {
 	}
 	h.add(hop{tid: tid, call: mc, ret: mr, kind: "w", presented: mres.Version, key: resKey(mid), ok: true, stored: mstored, epoch: int(h.epoch.Load()),
 		line: fmt.Sprintf("w %s %s ok", encRes(mstored), hx.EncS(mres.Version))})
-	for deadline := time.Now().Add(10 * time.Second); time.Now().Before(deadline) && !h.observed(evKey(mstored, false)); {
+	for deadline := time.Now().Add(observerWait()); time.Now().Before(deadline) && !h.observed(evKey(mstored, false)); {
 		time.Sleep(200 * time.Microsecond)
 	}
 	if !h.observed(evKey(mstored, false)) {
+		observerMisses.Add(1)
 		h.unreliable.Store(true) // the observer is lagging badly (overloaded machine): its commit order will have a hole
 	}
 	c := h.now()
@@ -659,7 +671,7 @@ func concurrentHistory(run *hx.Run, r *hx.RNG, idx int) {
 	h.add(hop{tid: 99, call: c, ret: rt, kind: "w", key: resKey(sid), ok: true, stored: stored, epoch: int(h.epoch.Load()),
 		line: fmt.Sprintf("w %s %s ok", encRes(stored), hx.EncS(""))})
 	quiescent := false
-	for deadline := time.Now().Add(10 * time.Second); time.Now().Before(deadline); {
+	for deadline := time.Now().Add(observerWait()); time.Now().Before(deadline); {
 		if h.observed(evKey(stored, false)) {
 			quiescent = true
 			break
@@ -667,6 +679,7 @@ func concurrentHistory(run *hx.Run, r *hx.RNG, idx int) {
 		time.Sleep(200 * time.Microsecond)
 	}
 	if !quiescent {
+		observerMisses.Add(1)
 		run.Tag("conc:publisher-not-quiescent")
 	}
 	h.stop.Store(true)
